@@ -298,9 +298,26 @@ func CheckMain(args []string) int {
 		sort.SliceStable(vs, func(a, b int) bool {
 			return matchKnown(known, id, vs[a]) == "" && matchKnown(known, id, vs[b]) != ""
 		})
+		// spread the instances replayed over different jobs, self-contained histories first: when the code under
+		// test keeps state across conversions, a counterexample of a job without a history depends on what the same
+		// worker explored before and cannot reproduce in a fresh process, while one from a history job can
+		sort.SliceStable(vs, func(a, b int) bool {
+			ha := vs[a].Param["hist"] != "" || vs[a].Param["histdoc"] != "" || vs[a].Param["symhist"] != ""
+			hb := vs[b].Param["hist"] != "" || vs[b].Param["histdoc"] != "" || vs[b].Param["symhist"] != ""
+			return ha && !hb
+		})
+		perJob := map[string]int{}
+		sort.SliceStable(vs, func(a, b int) bool {
+			return false // keep order; the per-job cap below does the spreading
+		})
 		kept := 0
 		seenKnown := map[string]bool{}
 		for _, v := range vs {
+			jk := fmt.Sprint(v.Param)
+			if matchKnown(known, id, v) == "" && perJob[jk] >= 2 {
+				continue
+			}
+			perJob[jk]++
 			kn := matchKnown(known, id, v)
 			if kn != "" {
 				if seenKnown[kn] {
@@ -308,7 +325,7 @@ func CheckMain(args []string) int {
 				}
 				seenKnown[kn] = true
 			} else {
-				if kept >= 3 {
+				if kept >= 6 {
 					continue
 				}
 				kept++
